@@ -11,9 +11,16 @@ func deleteChildOperator(d *dataTreeNavigator, context Context, expressionNode *
 	if err != nil {
 		return Context{}, err
 	}
+	alreadyDeleted := make(map[*CandidateNode]bool)
 	//need to iterate backwards to ensure correct indices when deleting multiple
 	for el := nodesToDelete.MatchingNodes.Back(); el != nil; el = el.Prev() {
 		candidate := el.Value.(*CandidateNode)
+
+		if alreadyDeleted[candidate] {
+			// selected more than once, e.g. del(.[0], .[0])
+			continue
+		}
+		alreadyDeleted[candidate] = true
 
 		if candidate.Parent == nil {
 			// must be a top level thing, delete it
@@ -29,7 +36,7 @@ func deleteChildOperator(d *dataTreeNavigator, context Context, expressionNode *
 		if parentNode.Kind == MappingNode {
 			deleteFromMap(candidate.Parent, childPath)
 		} else if parentNode.Kind == SequenceNode {
-			deleteFromArray(candidate.Parent, childPath)
+			deleteFromArray(candidate.Parent, candidate, childPath)
 		} else {
 			return Context{}, fmt.Errorf("cannot delete nodes from parent of tag %v", parentNode.Tag)
 		}
@@ -70,15 +77,28 @@ func deleteFromMap(node *CandidateNode, childPath interface{}) {
 	node.Content = newContents
 }
 
-func deleteFromArray(node *CandidateNode, childPath interface{}) {
+func deleteFromArray(node *CandidateNode, candidate *CandidateNode, childPath interface{}) {
 	log.Debug("deleteFromArray")
 	contents := node.Content
 	newContents := make([]*CandidateNode, 0)
 
+	// the index an element recorded when it was added can differ from where it sits now
+	// (after sort, reverse, slicing, concatenation): find the element itself first.
+	position := -1
+	for index := 0; index < len(contents); index = index + 1 {
+		if contents[index] == candidate {
+			position = index
+			break
+		}
+	}
+
 	for index := 0; index < len(contents); index = index + 1 {
 		value := contents[index]
 
-		shouldDelete := fmt.Sprintf("%v", index) == fmt.Sprintf("%v", childPath)
+		shouldDelete := index == position
+		if position < 0 {
+			shouldDelete = fmt.Sprintf("%v", index) == fmt.Sprintf("%v", childPath)
+		}
 
 		if !shouldDelete {
 			value.Key.Value = fmt.Sprintf("%v", len(newContents))
